@@ -12,7 +12,16 @@ def SubK (S : List Key) (b : Barrier) (KR : Keyring) : Prop :=
     kr.Sub KR ∧ (∀ t k, kr.termKey t = some k → t ≤ kr.active) ∧ (∃ k, kr.termKey kr.active = some k) ∧ kr.root ∈ S
 
 /-- the ACTIVE node's in-memory keyring has exactly the stored terms -/
-def SyncK (b : Barrier) (KR : Keyring) : Prop := ∀ kr, b.keyring = some kr → kr.keys = KR.keys ∧ kr.active = KR.active
+def SyncK (b : Barrier) (KR : Keyring) : Prop :=
+  ∀ kr, b.keyring = some kr → kr.keys = KR.keys ∧ kr.active = KR.active
+
+/-- the three barrier invariants only look at `sealed` and `keyring` (not at the bookkeeping flags) -/
+theorem SealedIff.flags {b b' : Barrier} (h : SealedIff b) (hs : b'.sealed = b.sealed) (hk : b'.keyring = b.keyring) :
+    SealedIff b' := by unfold SealedIff at *; rw [hs, hk]; exact h
+theorem SubK.flags {S KR} {b b' : Barrier} (h : SubK S b KR) (hk : b'.keyring = b.keyring) : SubK S b' KR := by
+  intro kr hkr; rw [hk] at hkr; exact h kr hkr
+theorem SyncK.flags {KR} {b b' : Barrier} (h : SyncK b KR) (hk : b'.keyring = b.keyring) : SyncK b' KR := by
+  intro kr hkr; rw [hk] at hkr; exact h kr hkr
 
 def opKeys : Op → List Key
   | .init k _ => [k]
@@ -108,7 +117,8 @@ theorem step_put (s v : String) :
     obtain ⟨h1, _, ⟨ak, h3⟩, _⟩ := hsub kr hkr
     have hak : ak.aesOK = true := (h.wf.2 _ _ (h1 _ _ h3)).1
     simp [hs, hkr, h3, hak, applyWrites, applyWrite, updShadow]
-    exact ⟨h.put_data s v kr.active ak (h1 _ _ h3), hc.put_other _ _ (by simp), hsi, hsub, fun x => x⟩
+    exact ⟨h.put_data s v kr.active ak (h1 _ _ h3), hc.put_other _ _ (by simp), hsi.flags (by first | rfl | (simp only [hkr]; done) | simpa using hs | simp_all) (by first | rfl | (simp only [hkr]; done) | simpa using hs | simp_all), hsub.flags (by first | rfl | (simp only [hkr]; done) | simpa using hs | simp_all),
+      fun x => x.flags (by first | rfl | (simp only [hkr]; done) | simpa using hs | simp_all)⟩
 
 theorem step_get (q : Path) :
     let e := step ns p b fk (.get q)
@@ -255,7 +265,8 @@ theorem step_mkupgrade (t : Nat) :
         | some pk =>
           by_cases hok : pk.aesOK = true
           · simp [hs, hkr, ht, htk, hpk, hok, applyWrites, applyWrite, updShadow]
-            refine ⟨h.put_meta _ _ _ _ (by simp) (by simp) (h1 _ _ hpk) (by simp) ?_, hc.put_other _ _ (by simp), hsi, hsub, fun x => x⟩
+            refine ⟨h.put_meta _ _ _ _ (by simp) (by simp) (h1 _ _ hpk) (by simp) ?_, hc.put_other _ _ (by simp),
+              hsi.flags (by first | rfl | (simp only [hkr]; done) | simpa using hs | simp_all) (by first | rfl | (simp only [hkr]; done) | simpa using hs | simp_all), hsub.flags (by first | rfl | (simp only [hkr]; done) | simpa using hs | simp_all), fun x => x.flags (by first | rfl | (simp only [hkr]; done) | simpa using hs | simp_all)⟩
             intro u hu
             simp at hu
             have h1t : t - 1 + 1 = t := by omega
@@ -366,7 +377,8 @@ theorem step_rotate (hfk : fk.aesOK = true) :
         have wf' := wf_next kr krwf fk hfk
         exact ⟨fun _ _ x => x, fun t k0 hk0 => (wf'.2 t k0 hk0).2.1, wf'.1, h4⟩
       · intro kr' hkr'; simp at hkr'; subst hkr'; exact ⟨rfl, rfl⟩
-    · simp [hs, hkr, addKey_next kr krwf fk, persist, hroot, applyWrites, updShadow]; exact same
+    · simp [hs, hkr, addKey_next kr krwf fk, persist, hroot, applyWrites, updShadow]
+      exact ⟨rk, KR, h, hc, hrk, hsi.flags (by first | rfl | (simp only [hkr]; done) | simpa using hs | simp_all) (by first | rfl | (simp only [hkr]; done) | simpa using hs | simp_all), hsub.flags (by first | rfl | (simp only [hkr]; done) | simpa using hs | simp_all), hsy.flags (by first | rfl | (simp only [hkr]; done) | simpa using hs | simp_all), fun _ _ x => x⟩
 
 theorem step_rotroot (k : Key) :
     let e := step ns p b fk (.rotroot k)
@@ -399,9 +411,113 @@ theorem step_rotroot (k : Key) :
         · intro kr' hkr'; simp at hkr'; subst hkr'
           exact ⟨fun _ _ x => x, fun t k0 hk0 => (wf'.2 t k0 hk0).2.1, wf'.1, by simp⟩
         · intro kr' hkr'; simp at hkr'; subst hkr'; exact ⟨rfl, rfl⟩
-      · simp [hs, hsz, hkr, persist, hroot, applyWrites, updShadow]; exact same
+      · simp [hs, hsz, hkr, persist, hroot, applyWrites, updShadow]
+        exact ⟨rk, KR, h, hc, mono _ hrk, hsi.flags (by first | rfl | (simp only [hkr]; done) | simpa using hs | simp_all) (by first | rfl | (simp only [hkr]; done) | simpa using hs | simp_all), (hsub.mono mono).flags (by first | rfl | (simp only [hkr]; done) | simpa using hs | simp_all), hsy.flags (by first | rfl | (simp only [hkr]; done) | simpa using hs | simp_all), fun _ _ x => x⟩
     · simp [hs, hsz, applyWrites, updShadow]; exact same
 
 end ops3
+
+
+/-- re-persisting a keyring `nkr` that has the stored terms (the bookkeeping tick, `SetRotationConfig`): the store is
+consistent again under `nkr.root`, with `nkr` as the stored keyring -/
+theorem repersist {p : Phys} {sh : List (String × String)} {rk : Key} {KR : Keyring} (b : Barrier)
+    (h : PInv p sh rk KR) (hsy : SyncK b KR) {kr : Keyring} (hkr : b.keyring = some kr) (nkr : Keyring) (hk : nkr.keys = kr.keys) (ha : nkr.active = kr.active)
+    (hroot : nkr.root.aesOK = true) :
+    ∃ ak, persist nkr = ([.put .keyring (.enc 1 nkr.root .keyring (.keyring nkr)),
+            .put .rootKey (.enc nkr.active ak .rootKey (.val (.keyrec 1 nkr.root))), .del .legacy], .ok) ∧
+      PInv (applyWrites p (persist nkr).1) sh nkr.root nkr ∧ Coherent (applyWrites p (persist nkr).1) nkr.root nkr ∧
+      KR.Sub nkr ∧ nkr.WF := by
+  obtain ⟨hk0, ha0⟩ := hsy kr hkr
+  have wf' : nkr.WF := WF_congr (hk.trans hk0) (ha.trans ha0) h.wf
+  obtain ⟨ak, hak⟩ := wf'.1
+  have hakok : ak.aesOK = true := (wf'.2 _ _ hak).1
+  have hsubK : KR.Sub nkr := by
+    intro t k0 hk0'
+    rw [← termKey_congr (hk.trans hk0)] at hk0'
+    exact hk0'
+  have hp : persist nkr = ([.put .keyring (.enc 1 nkr.root .keyring (.keyring nkr)),
+            .put .rootKey (.enc nkr.active ak .rootKey (.val (.keyrec 1 nkr.root))), .del .legacy], .ok) := by
+    simp [persist, hroot, hak, hakok]
+  refine ⟨ak, hp, ?_, ?_, hsubK, wf'⟩
+  · rw [hp]
+    simp only [applyWrites, List.foldl_cons, List.foldl_nil, applyWrite]
+    exact ((h.put_keyring nkr.root nkr hsubK rfl hroot wf').put_meta .rootKey _ ak _
+      (by simp) (by simp) hak (fun _ => ⟨_, rfl⟩) (by intro u hu; cases hu)).del_meta .legacy (by simp) (by simp) (by simp)
+  · rw [hp]
+    simp only [applyWrites, List.foldl_cons, List.foldl_nil, applyWrite]
+    exact ⟨ak, hak, by rw [get_del_other _ _ _ (by simp), get_put_same]⟩
+
+
+section ops4
+variable {p : Phys} {sh : List (String × String)} {rk : Key} {KR : Keyring} {S : List Key}
+variable (ns : Bool) (fk : Key) (b : Barrier)
+variable (h : PInv p sh rk KR) (hc : Coherent p rk KR) (hrk : rk ∈ S) (hsi : SealedIff b) (hsub : SubK S b KR)
+variable (hsy : SyncK b KR)
+include h hc hrk hsi hsub hsy
+
+theorem step_tick :
+    let e := step ns p b fk .tick
+    ConclR S (applyWrites p e.writes) (updShadow sh .tick e.res) e.bar KR := by
+  have same : ConclR S p sh b KR := ⟨rk, KR, h, hc, hrk, hsi, hsub, hsy, fun _ _ x => x⟩
+  simp only [step]
+  cases hkr : b.keyring with
+  | none => simp [applyWrites, updShadow]; exact same
+  | some kr =>
+    have hs : b.sealed = false := keyring_unsealed hsi hkr
+    obtain ⟨_, h2, h3, h4⟩ := hsub kr hkr
+    by_cases hhot : b.hot = true
+    · simp [hhot, applyWrites, updShadow]; exact same
+    · by_cases hd : b.dirty = true
+      · by_cases hroot : kr.root.aesOK = true
+        · obtain ⟨ak, hp, g1, g2, g3, g4⟩ := repersist b h hsy hkr kr rfl rfl hroot
+          rw [hp] at g1 g2
+          simp only [hhot, hs, hd, hp, updShadow]
+          simp only [Bool.false_eq_true, if_false, Bool.not_true]
+          refine ⟨kr.root, kr, g1, g2, h4, ?_, ?_, ?_, g3⟩
+          · simp [SealedIff]
+          · intro kr' hkr'; simp [hkr] at hkr'; subst hkr'
+            exact ⟨fun _ _ x => x, h2, h3, h4⟩
+          · intro kr' hkr'; simp [hkr] at hkr'; subst hkr'; exact ⟨rfl, rfl⟩
+        · simp [hhot, hs, hd, persist, hroot, applyWrites, updShadow]; exact same
+      · simp [hhot, hs, hd, applyWrites, updShadow]; exact same
+
+theorem step_setrot (d : Nat) :
+    let e := step ns p b fk (.setrot d)
+    ConclR S (applyWrites p e.writes) (updShadow sh (.setrot d) e.res) e.bar KR := by
+  have same : ConclR S p sh b KR := ⟨rk, KR, h, hc, hrk, hsi, hsub, hsy, fun _ _ x => x⟩
+  simp only [step]
+  cases hkr : b.keyring with
+  | none => simp [applyWrites, updShadow]; exact same
+  | some kr =>
+    have hs : b.sealed = false := keyring_unsealed hsi hkr
+    obtain ⟨h1, h2, h3, h4⟩ := hsub kr hkr
+    obtain ⟨hk0, ha0⟩ := hsy kr hkr
+    by_cases hd : d = kr.rot
+    · simp [hd, applyWrites, updShadow]; exact same
+    · by_cases hroot : kr.root.aesOK = true
+      · obtain ⟨ak, hp, g1, g2, g3, g4⟩ := repersist b h hsy hkr { kr with rot := d } rfl rfl hroot
+        rw [hp] at g1 g2
+        simp only [hd, hp, updShadow, if_false]
+        refine ⟨kr.root, { kr with rot := d }, g1, g2, h4, ?_, ?_, ?_, g3⟩
+        · simp [SealedIff, hs]
+        · intro kr' hkr'; simp at hkr'; subst hkr'
+          exact ⟨fun _ _ x => x, h2, h3, h4⟩
+        · intro kr' hkr'; simp at hkr'; subst hkr'; exact ⟨rfl, rfl⟩
+      · -- the root key is unusable: nothing is written, only the in-memory configuration changed
+        simp [hd, persist, hroot, applyWrites, updShadow]
+        refine ⟨rk, KR, h, hc, hrk, ?_, ?_, ?_, fun _ _ x => x⟩
+        · simp [SealedIff, hs]
+        · intro kr' hkr'; simp at hkr'; subst hkr'
+          exact ⟨h1, h2, h3, h4⟩
+        · intro kr' hkr'; simp at hkr'; subst hkr'; exact ⟨hk0, ha0⟩
+
+end ops4
+
+theorem step_heat {p sh rk KR S} (ns : Bool) (fk : Key) (b : Barrier)
+    (h : PInv p sh rk KR) (hc : Coherent p rk KR) (hsi : SealedIff b) (hsub : SubK S b KR) :
+    let e := step ns p b fk .heat
+    Concl S (applyWrites p e.writes) (updShadow sh .heat e.res) rk KR b e.bar := by
+  simp only [step, updShadow, applyWrites, List.foldl_nil]
+  exact ⟨h, hc, hsi.flags rfl rfl, hsub.flags rfl, fun x => x.flags rfl⟩
 
 end Obao.SealKeys
